@@ -444,7 +444,15 @@ def sceil(a):
         return a
     if is_num(a):
         return math.ceil(fr(a))
-    return _simp(-z3.ToInt(-a))
+    c = _simp(-z3.ToInt(-a))
+    if z3.is_app(a) and a.decl().name() == 'log2' and a.num_args() == 1 and is_z3(c):
+        # ceil(log2 t) is the unique c with 2^(c-1) < t <= 2^c  (t >= 1): ties the uninterpreted log2 to pow2
+        t = a.arg(0)
+        pow2(c)
+        pow2(c - 1)
+        ctx().fact(z3.Implies(t >= 1, z3.And(c >= 0, t <= z3.ToReal(F_POW2(c)),
+                                             z3.Implies(c >= 1, z3.ToReal(F_POW2(c - 1)) < t))), key=('ceil-log2', a.get_id()))
+    return c
 
 
 def strunc(a):
